@@ -12,6 +12,8 @@ static CALLS: AtomicU64 = AtomicU64::new(0);
 // an arbitrary "boot + uptime" base so that Instant arithmetic has room in both directions
 const BASE_S: i64 = 1_000_000;
 
+// (not under Miri: it has its own shim for this symbol and refuses a second definition; the loop engine is not run there)
+#[cfg(not(miri))]
 #[no_mangle]
 pub unsafe extern "C" fn clock_gettime(clk: libc::clockid_t, ts: *mut libc::timespec) -> libc::c_int {
   if VIRT_ON.load(Ordering::Relaxed) {
